@@ -16,6 +16,6 @@ PROP = dict(
     modelled="block persistence, start-up, the full collector (historic trie nodes, transfer batches, untraceable block records, header-hash pages), Reset and state-jump stage machines and the atomic restoration of a synchronised trie node are modelled and proved; the rest of the synchronisation traffic before the jump (header and block fetching) is exercised by the harness at every batch boundary but not modelled",
 )
 META = dict(
-    text="Proved in Coq for all operation sequences and all crash points k: every batch boundary leaves either an empty database or exactly a node at some height h not above the last accepted block (everything a block writes travels with the tip pointer), re-opening never fails, the recovered node holds the history's state and every later root is the history's root; GC batches preserve this; Reset and state jump as stage machines: with the repairs F20-F22 every interruption is resumed to the same database, for the code as it stands the three failing crash windows are exhibited as refuted statements and the rest proved under the guard. Tied to the Go code by exhaustive crash-point enumeration on real Blockchain instances over memory/LevelDB/BoltDB. The full collector (untraceable block records through the write cache, header-hash pages by their own commit) keeps every boundary recoverable (repaired page bound; the pinned bound is refuted, F48); after Reset(h) the database equals, key by key, that of a node that only synchronised to h except the trie nodes of the removed blocks; a synchronised trie node restored as one batch is complete at every boundary (written Put by Put it is not: H1 = F49). Partial: header and block fetching before the jump is exercised at every boundary but not modelled.",
+    text="Proved in Coq for all operation sequences and all crash points k: every batch boundary leaves either an empty database or exactly a node at some height h not above the last accepted block (everything a block writes travels with the tip pointer), re-opening never fails, the recovered node holds the history's state and every later root is the history's root; GC batches preserve this; Reset and state jump as stage machines: with the repairs F20-F22 every interruption is resumed to the same database, for the code as it stands the three failing crash windows are exhibited as refuted statements and the rest proved under the guard. Tied to the Go code by exhaustive crash-point enumeration on real Blockchain instances over memory/LevelDB/BoltDB. The full collector (untraceable block records through the write cache, header-hash pages by their own commit) keeps every boundary recoverable (repaired page bound; the pinned bound is refuted, F48); after Reset(h) the database equals, key by key, that of a node that only synchronised to h except the trie nodes of the removed blocks; a synchronised trie node restored as one batch is complete at every boundary (written Put by Put it is not: H1 = F49). Contract-storage-based synchronisation (item batches with checkpoints) resumes from every boundary to the same database when batch and checkpoint are persisted together (refuted for the late-checkpoint variant). Partial: header and block fetching before the jump is exercised at every boundary but not modelled.",
     note="Trusted: Coq kernel and vm_compute, the Go harness (recording store, key abstraction), orchestration. Assumed: backend batch atomicity, determinism of block execution, trie read-back (C03), GC soundness (C11).",
 )
